@@ -8,11 +8,20 @@
 // on the instrumented implementation and judged against a reference state
 // machine. "Promptly" is measured in file blocks the reader begins after the
 // stop, never in seconds.
+//
+// main.go: the history type, the scenario driver with its oracle, the families
+// S, P, W, E, T, L, R, N, H. families.go: the families of the boundary audit
+// (context errors, decoder counts <= 0, failing readers, a canceller started in
+// mid-scan, Close against a concurrent cancel, 30 / 1 / 0 data blocks, skip
+// flags, stalls at other positions, two scanners on one context, switch mode
+// for 1 and 12 decoders). inputs.go: the inputs and the failing reader.
 package main
 
 import (
 	"context"
 	"fmt"
+	"io"
+	"sort"
 	"strings"
 	"time"
 
@@ -33,9 +42,21 @@ const (
 	stopCancelOther
 	stopCancelThenClose
 	stopCloseThenCancel
+	// stopCloseVsCancel: a second thread cancels at a time of its own while the
+	// consumer scans K objects and then calls Close (two stops that are each
+	// covered alone, together)
+	stopCloseVsCancel
 )
 
-var stopNames = []string{"Close", "cancel", "cancel-from-second-thread", "cancel-then-Close", "Close-then-cancel"}
+var stopNames = []string{"Close", "cancel", "cancel-from-second-thread", "cancel-then-Close", "Close-then-cancel", "Close-while-second-thread-cancels"}
+
+const (
+	ctxOwn = iota
+	// ctxDeadline: the scanner's context is the child of a context that ends
+	// with context.DeadlineExceeded (a deadline that passes); "cancel" in the
+	// history then means that moment.
+	ctxDeadline
+)
 
 type history struct {
 	Format   string // "pbf" or "xml"
@@ -65,6 +86,39 @@ type history struct {
 	// reported offset); the reader goroutine then hands that first block over
 	// before its loop starts.
 	Headerless bool
+
+	// ---- boundary audit (zero values: the histories as they were) ----
+
+	// Blocks: data blocks of the PBF file (0 = the standard 6). 30 blocks are more
+	// than the channels of one decoder hold (10 + 10 + 1): the reader is parked in
+	// its send, with input unread, when the stop comes.
+	Blocks int
+	// Empty: nothing after the header block (PBF) / an osm element without
+	// children (XML): the first Scan already is the complete scan.
+	Empty bool
+	// Skip: SkipNodes and SkipWays are set, only the relation blocks deliver
+	// objects: one Scan runs across several blocks.
+	Skip bool
+	// IOErr: the READER fails (an I/O error, no damage) at the fault position; as
+	// with Damaged the consumer scans until Scan returns false, then stops.
+	IOErr bool
+	// FaultAt: file block number of the fault of Damaged / IOErr histories
+	// (0 = the default, file block 3; < 0 = the header block). XML, IOErr only:
+	// >= 0 = before node 4, < 0 = the first read.
+	FaultAt int
+	// CtxKind: ctxOwn or ctxDeadline.
+	CtxKind int
+	// SpawnAt: the cancelling goroutine of cancel-from-second-thread /
+	// Close-while-second-thread-cancels is started after this many successful
+	// Scans (0 = before the first Scan, as before): with the child-below
+	// configuration it cancels as soon as the consumer waits inside a Scan.
+	SpawnAt int
+	// GateAt: Stalled histories: file block number the input stalls in front of (0 = 3).
+	GateAt int
+	// Twin: a second scanner with its own reader is created on the SAME context and
+	// scanned in lock step. Close of the first must leave it alone (it delivers the
+	// complete file, Err nil); a cancellation stops both.
+	Twin bool
 }
 
 func (h history) name() string {
@@ -87,43 +141,45 @@ func (h history) name() string {
 	if h.Headerless {
 		d += " headerless-stream"
 	}
+	if h.Blocks > 0 {
+		d += fmt.Sprintf(" %d-data-blocks", h.Blocks)
+	}
+	if h.Empty {
+		d += " no-data"
+	}
+	if h.Skip {
+		d += " skip-nodes-and-ways"
+	}
+	if h.IOErr {
+		d += " failing-reader"
+	}
+	if h.FaultAt != 0 {
+		d += fmt.Sprintf(" fault-in-file-block-%d", h.faultBlock())
+	}
+	if h.CtxKind == ctxDeadline {
+		d += " parent-deadline-exceeded"
+	}
+	if h.SpawnAt > 0 {
+		d += fmt.Sprintf(" canceller-started-after-%d-scans", h.SpawnAt)
+	}
+	if h.GateAt > 0 {
+		d += fmt.Sprintf(" stall-before-file-block-%d", h.GateAt)
+	}
+	if h.Twin {
+		d += " twin-scanner-on-the-same-context"
+	}
 	return fmt.Sprintf("%s%s procs=%d scans=%d headerAt=%d stop=%s post=%s", h.Format, d, h.Procs, h.K, h.HeaderAt, stopNames[h.Stop], h.Post)
 }
 
 const pbfBlocks = 6
 
 var (
-	pbfFile = pbfscen.File(pbfBlocks, true)
-	pbfEnc  = pbfFile.Encode()
-	// the same data blocks without the header block: a stream resumed mid-file
-	pbfEncNoHeader = pbfscen.File(pbfBlocks, false).Encode()
-	pbfWant        = pbfFile.Expected()
-	xmlDoc         = buildXML()
-
-	// damaged inputs: two valid data blocks, then a block whose blob is not a
-	// protobuf message, then one more valid block / three nodes, then a
-	// mismatched end tag
-	pbfDamaged, pbfDamagedWant = buildDamagedPBF()
-	xmlDamaged                 = []byte(strings.Replace(string(xmlDoc), `<node id="4"`, `<node id="4"></way><node id="44"`, 1))
+	// the standard PBF input: header + 6 data blocks of two objects each
+	pbfWant = pbfscen.File(pbfBlocks, true).Expected()
+	xmlDoc  = buildXML()
+	// damaged XML: three nodes, then a mismatched end tag
+	xmlDamaged = []byte(strings.Replace(string(xmlDoc), `<node id="4"`, `<node id="4"></way><node id="44"`, 1))
 )
-
-func buildDamagedPBF() ([]byte, []osm.Object) {
-	var data []byte
-	var want []osm.Object
-	data = append(data, pbfgen.EncodeFileBlock("OSMHeader", pbfgen.EncodeBlob(pbfgen.StdHeader().Bytes(), pbfgen.BlobOpts{}), pbfgen.FileBlockOpts{})...)
-	for i := range pbfFile.Blocks {
-		b := &pbfFile.Blocks[i]
-		o := pbfgen.BlobOpts{}
-		if i == 2 {
-			o.Garbage = true
-		}
-		data = append(data, pbfgen.EncodeFileBlock("OSMData", pbfgen.EncodeBlob(b.PrimitiveBlock(), o), pbfgen.FileBlockOpts{})...)
-		if i < 2 {
-			want = append(want, b.Expected()...)
-		}
-	}
-	return data, want
-}
 
 func buildXML() []byte {
 	var b strings.Builder
@@ -154,20 +210,32 @@ type postResult struct {
 	op  byte
 	b   bool
 	err error
+	// cancelStarted: the second thread had begun its cancel call when this call was made
+	cancelStarted bool
 }
 
 func scenario(h history, bound int) vexplore.Scenario {
 	fam := fmt.Sprintf("%s procs=%d stop=%s D=%d", h.Format, h.Procs, stopNames[h.Stop], bound)
-	total := len(pbfWant)
-	if h.Format == "xml" {
-		total = 6
+	var inp input
+	var total int
+	if h.Format == "pbf" {
+		inp = pbfInput(h)
+		total = len(inp.want)
+	} else {
+		inp, total = xmlInput(h)
 	}
 	if h.Damaged {
 		fam += " damaged-input"
-		total = len(pbfDamagedWant)
-		if h.Format == "xml" {
-			total = 3
-		}
+	}
+	if h.IOErr {
+		fam += " failing-reader"
+	}
+	faulty := h.Damaged || h.IOErr
+	// a second thread cancels at a time of its own
+	concurrent := h.Stop == stopCancelOther || h.Stop == stopCloseVsCancel
+	ctxErr := context.Canceled
+	if h.CtxKind == ctxDeadline {
+		ctxErr = context.DeadlineExceeded
 	}
 	return vexplore.Scenario{Name: h.name(), Family: fam, Bound: bound, RacesAreFindings: true, MaxSteps: 200000,
 		New: func() (func(), func(*vsched.Outcome) ([]vexplore.Finding, string, bool)) {
@@ -186,36 +254,68 @@ func scenario(h history, bound int) vexplore.Scenario {
 				rd                 *pbfscen.Reader
 				errBeforeStop      error
 				errAtEnd           error
+				stopCloseErr       error
+				cancelStarted      bool // the second thread has begun its cancel call
+				startedAtEnded     bool // ... when the Scan of the scan loop returned false
+				startedAtEnd       bool // ... when Err was called at the very end
+				// twin scanner
+				gotB       []osm.Object
+				atReturnB  []string
+				endedB     bool
+				lenBAtStop = -1
+				errB       error
 			)
 			main := func() {
 				ctx, cancel := vsched.WithCancel(nil)
+				if h.CtxKind == ctxDeadline {
+					parent := ctx
+					ctx, _ = vsched.WithCancel(parent)
+					cancel = func() { parent.(*vsched.Ctx).Cancel(context.DeadlineExceeded) }
+				}
 				if h.NilCtx {
 					ctx = nil
 				}
 				if h.PreCancelled {
 					cancel()
 				}
-				var s scanner
+				var s, sB scanner
 				var ps *osmpbf.Scanner
+				newReader := func() (*pbfscen.Reader, io.Reader) {
+					r := &pbfscen.Reader{Data: inp.data, BlockOnly: true}
+					if h.Format == "xml" {
+						r = &pbfscen.Reader{Data: inp.data, MaxChunk: xmlChunk}
+					}
+					if h.IOErr {
+						return r, &faultReader{Reader: r, FailBlock: inp.failBlock, FailPos: inp.failPos}
+					}
+					return r, r
+				}
+				var src io.Reader
+				rd, src = newReader()
 				if h.Format == "pbf" {
-					rd = &pbfscen.Reader{Data: pbfEnc.Data, BlockOnly: true}
-					if h.Headerless {
-						rd.Data = pbfEncNoHeader.Data
-					}
-					if h.Damaged {
-						rd.Data = pbfDamaged
-					}
 					if h.Stalled {
 						rd.Gate, rd.GateAt = vsched.MakeChan[struct{}](0), 3
+						if h.GateAt > 0 {
+							rd.GateAt = h.GateAt
+						}
 					}
-					ps = osmpbf.New(ctx, rd, h.Procs)
+					ps = osmpbf.New(ctx, src, h.Procs)
+					if h.Skip {
+						ps.SkipNodes, ps.SkipWays = true, true
+					}
 					s = ps
-				} else {
-					rd = &pbfscen.Reader{Data: xmlDoc, MaxChunk: 160}
-					if h.Damaged {
-						rd.Data = xmlDamaged
+					if h.Twin {
+						var srcB io.Reader
+						_, srcB = newReader()
+						sB = osmpbf.New(ctx, srcB, h.Procs)
 					}
-					s = osmxml.New(ctx, rd)
+				} else {
+					s = osmxml.New(ctx, src)
+					if h.Twin {
+						var srcB io.Reader
+						_, srcB = newReader()
+						sB = osmxml.New(ctx, srcB)
+					}
 				}
 				vsched.OnCancel = func() {
 					if blocksAtStop < 0 {
@@ -223,15 +323,38 @@ func scenario(h history, bound int) vexplore.Scenario {
 					}
 				}
 				defer func() { vsched.OnCancel = nil }()
-				if h.Stop == stopCancelOther {
-					vsched.GoNamed("canceller", func() { cancel() })
+				spawned := false
+				spawn := func() {
+					spawned = true
+					vsched.GoNamed("canceller", func() {
+						cancelStarted = true
+						cancel()
+					})
+				}
+				if concurrent && h.SpawnAt <= 0 {
+					spawn()
 				}
 				phase = "scanning"
 				limit := h.K
-				if h.Stop == stopCancelOther || h.Damaged {
+				if h.Stop == stopCancelOther || faulty {
 					limit = 1 << 20
 				}
+				takeB := func() {
+					if sB == nil || endedB {
+						return
+					}
+					if !sB.Scan() {
+						endedB = true
+						return
+					}
+					o := sB.Object()
+					gotB = append(gotB, o)
+					atReturnB = append(atReturnB, diffAt(h, inp, len(gotB), o))
+				}
 				for i := 0; i < limit; i++ {
+					if concurrent && h.SpawnAt > 0 && i == h.SpawnAt {
+						spawn()
+					}
 					if ps != nil && i == h.HeaderAt {
 						ps.Header()
 					}
@@ -241,20 +364,17 @@ func scenario(h history, bound int) vexplore.Scenario {
 					}
 					o := s.Object()
 					got = append(got, o)
-					d := ""
-					if h.Format == "pbf" {
-						if len(got) <= len(pbfWant) {
-							d = pbfgen.DiffObject(o, pbfWant[len(got)-1])
-						} else {
-							d = "more objects than the file holds"
-						}
-					} else if n, ok := o.(*osm.Node); !ok || int(n.ID) != len(got) {
-						d = fmt.Sprintf("xml object %d is %v", len(got), o)
-					}
-					atReturn = append(atReturn, d)
+					atReturn = append(atReturn, diffAt(h, inp, len(got), o))
+					takeB()
 				}
 				if ended {
 					errBeforeStop = s.Err()
+					startedAtEnded = cancelStarted
+				}
+				if concurrent && !spawned {
+					// the scan came to its end (or to the consumer's Close) before the
+					// canceller was due: it starts now
+					spawn()
 				}
 				if rd.Gate != nil {
 					rd.Gate.Close() // the stalled Read returns now
@@ -265,24 +385,25 @@ func scenario(h history, bound int) vexplore.Scenario {
 					blocksAtCall, posAtCall = rd.BlocksBegun, rd.Pos
 				}
 				switch h.Stop {
-				case stopClose:
-					s.Close()
+				case stopClose, stopCloseVsCancel:
+					stopCloseErr = s.Close()
 				case stopCancel:
 					cancel()
 				case stopCancelThenClose:
 					cancel()
-					s.Close()
+					stopCloseErr = s.Close()
 				case stopCloseThenCancel:
-					s.Close()
+					stopCloseErr = s.Close()
 					cancel()
 				}
+				lenBAtStop = len(gotB)
 				phase = "post"
 				for i := 0; i < len(h.Post); i++ {
 					switch h.Post[i] {
 					case 'S':
 						post = append(post, postResult{op: 'S', b: s.Scan()})
 					case 'E':
-						post = append(post, postResult{op: 'E', err: s.Err()})
+						post = append(post, postResult{op: 'E', err: s.Err(), cancelStarted: cancelStarted})
 					case 'C':
 						post = append(post, postResult{op: 'C', err: s.Close()})
 					case 'H':
@@ -292,8 +413,16 @@ func scenario(h history, bound int) vexplore.Scenario {
 						}
 					}
 				}
+				if sB != nil {
+					phase = "twin"
+					for !endedB {
+						takeB()
+					}
+					errB = sB.Err()
+				}
 				phase = "final-close"
 				errAtEnd = s.Err()
+				startedAtEnd = cancelStarted
 				if h.FinalClose {
 					s.Close()
 				}
@@ -315,10 +444,7 @@ func scenario(h history, bound int) vexplore.Scenario {
 				}
 				unreadAtStop := 0
 				if blocksAtStop >= 0 {
-					unreadAtStop = pbfBlocks + 1 - blocksAtStop // +1: the header block
-					if h.Headerless {
-						unreadAtStop--
-					}
+					unreadAtStop = inp.fblocks - blocksAtStop
 				}
 				nonvac := stopIssued && !complete && (h.Format == "xml" || unreadAtStop >= 4 || h.K == 0)
 				tag := fmt.Sprintf("%d objs, %d blocks at stop, %d at end, err=%v", len(got), blocksAtStop, rdBlocks(rd), errAtEnd)
@@ -326,14 +452,56 @@ func scenario(h history, bound int) vexplore.Scenario {
 					add(o.Kind, fmt.Sprintf("execution ended in %s during phase %q: %s", o.Kind, phase, o.Detail))
 					return fs, tag, nonvac
 				}
-				if h.Damaged {
+				for i, d := range atReturn {
+					if d != "" {
+						add("sequence", fmt.Sprintf("object %d: %s", i, d))
+						break
+					}
+				}
+				closeErr := func(where string, err error) {
+					if err != nil {
+						add("close-error", fmt.Sprintf("%s: Close returned %v", where, err))
+					}
+				}
+				closeErr("the stop", stopCloseErr)
+				if faulty {
 					// reference: the valid prefix, then an error that stays the answer of Err
-					if len(got) != total {
+					// with a second thread cancelling, whichever comes first is the
+					// answer: the fault or the context's error
+					ctxFirst := concurrent && errBeforeStop == ctxErr && startedAtEnded
+					if h.Damaged && len(got) != total && !ctxFirst {
 						add("damaged/prefix", fmt.Sprintf("%d objects delivered before the error, want %d", len(got), total))
 					}
-					if !ended || errBeforeStop == nil || errBeforeStop == osm.ErrScannerClosed || errBeforeStop == context.Canceled {
-						add("damaged/no-error", fmt.Sprintf("Scan ended=%v with Err()=%v on damaged input", ended, errBeforeStop))
+					if len(got) > total {
+						add("failing-reader/prefix", fmt.Sprintf("%d objects delivered, the input held %d in front of the failing read", len(got), total))
+					}
+					theFault := func(err error) bool {
+						if h.IOErr {
+							return isIOErr(err)
+						}
+						return err != nil && err != osm.ErrScannerClosed && err != ctxErr
+					}
+					if !ended || !(theFault(errBeforeStop) || ctxFirst) {
+						k := "damaged/no-error"
+						if h.IOErr {
+							k = "failing-reader/no-error"
+						}
+						add(k, fmt.Sprintf("Scan ended=%v with Err()=%v on faulty input (%s)", ended, errBeforeStop, h.name()))
 						return fs, tag, true
+					}
+					closed := h.Stop != stopCancel && h.Stop != stopCancelOther
+					later := func(where string, err error) {
+						if ctxFirst {
+							// no fault was recorded when the scan ended: the stop answers
+							// apply; a fault that surfaces later is not judged
+							if !(err == ctxErr || (closed && err == osm.ErrScannerClosed) || theFault(err)) {
+								add("err-value", fmt.Sprintf("%s: Err()=%v after the scan had ended with %v", where, err, errBeforeStop))
+							}
+							return
+						}
+						if err == nil || err.Error() != errBeforeStop.Error() {
+							add("earlier-error-lost", fmt.Sprintf("%s: Err()=%v after %s, the error recorded earlier was %v", where, err, stopNames[h.Stop], errBeforeStop))
+						}
 					}
 					for i, p := range post {
 						switch p.op {
@@ -342,50 +510,48 @@ func scenario(h history, bound int) vexplore.Scenario {
 								add("scan-true-after-stop", fmt.Sprintf("post call %d: Scan returned true after an error and %s", i, stopNames[h.Stop]))
 							}
 						case 'E':
-							if p.err == nil || p.err.Error() != errBeforeStop.Error() {
-								add("earlier-error-lost", fmt.Sprintf("post call %d: Err()=%v after %s, the error recorded earlier was %v", i, p.err, stopNames[h.Stop], errBeforeStop))
-							}
+							later(fmt.Sprintf("post call %d", i), p.err)
+						case 'C':
+							closed = true
+							closeErr(fmt.Sprintf("post call %d", i), p.err)
 						}
 					}
-					if errAtEnd == nil || errAtEnd.Error() != errBeforeStop.Error() {
-						add("earlier-error-lost", fmt.Sprintf("Err()=%v at the end, the error recorded earlier was %v", errAtEnd, errBeforeStop))
-					}
+					later("at the end", errAtEnd)
 					if !finalCloseReturned {
 						add("close-did-not-return", "final Close did not return")
 					}
 					return fs, tag, true
 				}
-				for i, d := range atReturn {
-					if d != "" {
-						add("sequence", fmt.Sprintf("object %d: %s", i, d))
-						break
-					}
-				}
 				if h.Format == "pbf" {
 					for i, ob := range got {
-						if i < len(pbfWant) && atReturn[i] == "" {
-							if d := pbfgen.DiffObject(ob, pbfWant[i]); d != "" {
+						if i < len(inp.want) && atReturn[i] == "" {
+							if d := pbfgen.DiffObject(ob, inp.want[i]); d != "" {
 								add("modified-after-return", fmt.Sprintf("object %d: %s", i, d))
 								break
 							}
 						}
 					}
 				}
-				if ended && h.Stop != stopCancelOther && len(got) != total {
+				if ended && !concurrent && len(got) != total {
 					add("scan-ended-early", fmt.Sprintf("Scan returned false after %d of %d objects without any stop, Err=%v", len(got), total, errBeforeStop))
 				}
-				if ended && h.Stop != stopCancelOther && errBeforeStop != nil {
+				if ended && !concurrent && errBeforeStop != nil {
 					add("error-on-complete-scan", fmt.Sprintf("Err()=%v after a complete scan", errBeforeStop))
 				}
 				// reference machine for the calls after the stop
-				closed := h.Stop == stopClose || h.Stop == stopCancelThenClose || h.Stop == stopCloseThenCancel
-				cancelled := h.Stop != stopClose || h.PreCancelled
-				if h.Stop == stopCancelOther {
-					closed = false
-				}
-				checkErr := func(where string, err error) {
+				closed := h.Stop == stopClose || h.Stop == stopCancelThenClose || h.Stop == stopCloseThenCancel || h.Stop == stopCloseVsCancel
+				checkErr := func(where string, err error, isClosed, secondThreadStarted bool) {
+					// has the context been cancelled when the call was made? own stops: by
+					// construction; a second thread: not before it began its call
+					cancelled := h.PreCancelled
+					switch h.Stop {
+					case stopCancel, stopCancelThenClose, stopCloseThenCancel:
+						cancelled = true
+					case stopCancelOther, stopCloseVsCancel:
+						cancelled = cancelled || secondThreadStarted
+					}
 					switch {
-					case complete && h.Stop != stopCancelOther:
+					case complete && !concurrent:
 						if err != nil {
 							add("err-after-complete-scan", fmt.Sprintf("%s: Err()=%v, want nil after a complete scan", where, err))
 						}
@@ -393,16 +559,21 @@ func scenario(h history, bound int) vexplore.Scenario {
 						// All objects were delivered and Scan returned false: either the
 						// end of input was seen (nil) or the concurrent cancellation was
 						// seen first (context error, or the closed error once Close was called).
-						if err != nil && err != context.Canceled && !(closed && err == osm.ErrScannerClosed) {
+						if err != nil && !(cancelled && err == ctxErr) && !(isClosed && err == osm.ErrScannerClosed) {
 							add("err-value", fmt.Sprintf("%s: Err()=%v", where, err))
 						}
 					default:
-						okClosed := closed && err == osm.ErrScannerClosed
-						okCancelled := cancelled && err == context.Canceled
+						okClosed := isClosed && err == osm.ErrScannerClosed
+						okCancelled := cancelled && err == ctxErr
 						if !okClosed && !okCancelled {
-							add("err-value", fmt.Sprintf("%s: Err()=%v after %s with %d of %d objects delivered", where, err, stopNames[h.Stop], len(got), total))
+							add("err-value", fmt.Sprintf("%s: Err()=%v after %s with %d of %d objects delivered (closed=%v, context ended=%v with %v)", where, err, stopNames[h.Stop], len(got), total, isClosed, cancelled, ctxErr))
 						}
 					}
+				}
+				if ended && concurrent {
+					// the Scan in progress (or the next one) was ended by the second
+					// thread's cancellation - or the scan was complete
+					checkErr("right after Scan returned false", errBeforeStop, false, startedAtEnded)
 				}
 				for i, p := range post {
 					switch p.op {
@@ -411,19 +582,45 @@ func scenario(h history, bound int) vexplore.Scenario {
 							add("scan-true-after-stop", fmt.Sprintf("post call %d: Scan returned true after %s", i, stopNames[h.Stop]))
 						}
 					case 'E':
-						checkErr(fmt.Sprintf("post call %d", i), p.err)
+						checkErr(fmt.Sprintf("post call %d", i), p.err, closed, p.cancelStarted)
 					case 'C':
 						closed = true
-						if p.err != nil {
-							add("close-error", fmt.Sprintf("post call %d: Close returned %v", i, p.err))
-						}
+						closeErr(fmt.Sprintf("post call %d", i), p.err)
 					}
 				}
+				checkErr("at the end", errAtEnd, closed, startedAtEnd)
 				if !finalCloseReturned {
 					add("close-did-not-return", "final Close did not return")
 				}
+				// the twin on the same context
+				if h.Twin {
+					for i, d := range atReturnB {
+						if d != "" {
+							add("twin/sequence", fmt.Sprintf("second scanner, object %d: %s", i, d))
+							break
+						}
+					}
+					switch {
+					case h.Stop == stopClose && !h.PreCancelled:
+						// Close of the first scanner is not a cancellation of the shared context
+						if len(gotB) != total || errB != nil {
+							add("twin/stopped-by-the-other-close", fmt.Sprintf("the second scanner delivered %d of %d objects and ended with Err()=%v after the FIRST scanner was closed", len(gotB), total, errB))
+						}
+					case !concurrent:
+						if len(gotB) != lenBAtStop {
+							add("twin/scan-true-after-stop", fmt.Sprintf("the second scanner delivered %d more objects after the shared context had ended", len(gotB)-lenBAtStop))
+						}
+						if errB != ctxErr {
+							add("twin/err-value", fmt.Sprintf("second scanner: Err()=%v after the shared context ended with %v", errB, ctxErr))
+						}
+					default:
+						if !(errB == ctxErr || (errB == nil && len(gotB) == total)) {
+							add("twin/err-value", fmt.Sprintf("second scanner: Err()=%v with %d of %d objects delivered", errB, len(gotB), total))
+						}
+					}
+				}
 				// promptness, in blocks / reads
-				if h.Format == "pbf" && !h.Damaged && blocksAtStop >= 0 && unreadAtStop >= 4 {
+				if h.Format == "pbf" && blocksAtStop >= 0 && unreadAtStop >= 4 {
 					if begun := rd.BlocksBegun - blocksAtStop; begun > 2 {
 						add("reads-on-after-stop", fmt.Sprintf("%d file blocks were still unread when the scan was stopped; the reader began %d more blocks afterwards (at most 2 allowed), %d of %d bytes consumed at the end", unreadAtStop, begun, rd.Pos, len(rd.Data)))
 					}
@@ -440,6 +637,21 @@ func scenario(h history, bound int) vexplore.Scenario {
 			}
 			return main, check
 		}}
+}
+
+// diffAt compares the n-th object (1-based) a scanner returned with the n-th
+// object of the input, at the moment it is returned.
+func diffAt(h history, inp input, n int, o osm.Object) string {
+	if h.Format == "pbf" {
+		if n <= len(inp.want) {
+			return pbfgen.DiffObject(o, inp.want[n-1])
+		}
+		return "more objects than the input holds in front of its end / fault"
+	}
+	if nd, ok := o.(*osm.Node); !ok || int(nd.ID) != n {
+		return fmt.Sprintf("xml object %d is %v", n, o)
+	}
+	return ""
 }
 
 func rdBlocks(r *pbfscen.Reader) int {
@@ -471,9 +683,15 @@ func main() {
 		r.Rule("call histories (Header|Scan)^k ; stop in {Close, cancel, cancel from a second thread, cancel then Close, Close then cancel} ; post calls over {Scan, Err, Close, Header}; " +
 			"family T: the input stalls before the third data block until Scan has returned false, cancel from a second thread (a parked reader must not keep the Scan in progress from ending), D=1; family N: scanners created with a nil context, stopped by Close, D=1; family E: damaged input (error recorded, then stop: Err keeps the earlier error), D=1; family S: fixed post sequence SECSEH, k in a grid, every schedule with <= D deviations, both priority configurations; family H: every post sequence of length <= 2 (quick) / 3 (thorough) and every k, default schedules (D=0); " +
 			"PBF input: header + 6 data blocks, XML input: 6 nodes and two 1.6 KB stretches of unknown elements and comments, read in 160-byte chunks; non-vacuous = the stop was issued with >= 4 file blocks unread (PBF) or before the end (XML); " +
-			"distinct_nontrivial = distinct complete operation sequences among non-vacuous executions")
+			"distinct_nontrivial = distinct complete operation sequences among non-vacuous executions; " +
+			"boundary audit (families.go): D context ending with DeadlineExceeded through a parent; Z decoder counts 0 / -1 (thorough: -2^31, 5, 6, 32); F reader failing with an I/O error in the header block / first data block / file block 3 and damage in the header, first and last block, alone and with a cancelling second thread; " +
+			"C cancelling thread started after k Scans, every k; V Close by the consumer while a second thread cancels; B 30 data blocks (reader parked in its send with input unread under the default schedules); O header-only file, empty osm element, one data block; K SkipNodes+SkipWays (a Scan across several blocks); " +
+			"T' input stalling before the first data block / before the end-of-input read, 12 decoders; 2 two scanners on one context in lock step (Close of one leaves the other alone, cancellation stops both); W' switch mode for 1 and 12 decoders. " +
+			"Err is judged at every call: right after the Scan that returned false, in the post calls and at the very end; with a second thread the context error is accepted only once that thread had begun its cancel call")
 		r.Assume("promptness is a block count: the reader may begin at most 2 file blocks after the cancellation took effect (measured atomically at the cancelling operation); wall-clock latency is not measured")
 		r.Assume("a Header/Scan that first starts the decoder AFTER the stop may read the header block (and one more): it falls under the same 2-block allowance; no final Close is issued, so a thread that survives the stop is a leak")
+		r.Assume("not decided by the property text and therefore not enumerated: Close from a goroutine other than the scanning one; Header / Err / FullyScannedBytes called while a Scan is in progress; Close while the input is stalled (a Read that does not return cannot be interrupted); what Header and Object return after the stop; an error that surfaces after the scan had already ended with the context's error; contexts wrapped by context.WithValue cannot be modelled (vsched accepts only its own cancellable contexts)")
+		r.Assume("failing reader (family F): the scanner must report the reader's error (errors.Is or its text) and may deliver at most the objects in front of the failing read; that it delivers all of them is C06's subject and is not judged here")
 		var scs []vexplore.Scenario
 		N := len(pbfWant)
 		ks := []int{0, 1, 3, N + 1}
@@ -496,13 +714,23 @@ func main() {
 					if k >= 3 {
 						hAt = 1
 					}
-					scs = append(scs, scenario(history{Format: "pbf", Procs: pd.p, K: k, HeaderAt: hAt, Stop: stop, Post: "SECSEH"}, pd.d))
+					d := pd.d
+					if r.Quick() && k > N && d > 1 {
+						// After a complete scan nothing is left to stop (vacuous for
+						// promptness; the order of a complete scan under two deviations is
+						// C02's subject): the quick tier explores these four histories per
+						// decoder count with one deviation (they were 37% of its executions)
+						// and spends the time on the audit families; thorough keeps D=3.
+						d = 1
+					}
+					scs = append(scs, scenario(history{Format: "pbf", Procs: pd.p, K: k, HeaderAt: hAt, Stop: stop, Post: "SECSEH"}, d))
 					if pd.p == 1 && (k == 0 || k == 3) {
 						scs = append(scs, scenario(history{Format: "pbf", Procs: pd.p, K: k, HeaderAt: hAt, Stop: stop, Post: "SH", FinalClose: true}, 1))
 					}
 				}
 			}
 		}
+		nS := len(scs) // family S (PBF) ends here
 		for stop := 0; stop < 5; stop++ {
 			kk := []int{0, 1, 3, 7}
 			if stop == stopCancelOther {
@@ -614,6 +842,23 @@ func main() {
 					scs = append(scs, scenario(history{Format: "xml", Procs: 1, K: k, HeaderAt: -1, Stop: stop, Post: ps}, 0))
 				}
 			}
+		}
+		// the audit families; in the thorough tier (time cap) they go first, the deep
+		// family S last
+		if r.Quick() {
+			scs = append(scs, auditFamilies(true, N)...)
+		} else {
+			famS := append([]vexplore.Scenario{}, scs[:nS]...)
+			sort.SliceStable(famS, func(i, j int) bool { return famS[i].Bound < famS[j].Bound })
+			rest := append(append([]vexplore.Scenario{}, scs[nS:]...), auditFamilies(false, N)...)
+			scs = append(rest, famS...)
+		}
+		seen := map[string]bool{}
+		for i := range scs {
+			if seen[scs[i].Name] {
+				kit.Fatalf("two scenarios are named %q", scs[i].Name)
+			}
+			seen[scs[i].Name] = true
 		}
 		r.Set("scenarios", len(scs))
 		e := &vexplore.Explorer{R: r, Scenarios: scs}
